@@ -1,0 +1,9 @@
+package cmpp
+
+import "github.com/hujm2023/go-sms-protocol/verifhook"
+
+// clockYield marks a reading of the wall clock for the verification build (no-op otherwise): the simulated clock
+// can be advanced between two readings.
+func clockYield() {
+	verifhook.Yield("clock.read")
+}
